@@ -74,7 +74,18 @@ def closure_sig(g):
     """(arity, takes-a-deserializer, return kind) of a closure body"""
     params = g.locals[2:g.argc + 1]
     ret = g.locals[0]
-    return (len(params), any('erased_serde::de::Deserializer' in p for p in params), ret_kind(ret))
+    return (len(params), any('erased_serde::de::Deserializer' in p for p in params), ret_kind(ret), tuple(_pkind(p) for p in params))
+
+
+def _pkind(ty):
+    """how a parameter is passed: by mutable reference, by shared reference or by value (a closure taking `&mut Serializer` is no
+    candidate for a `dyn FnMut(Out)` slot filled by crux's own by-value resolve closures)"""
+    ty = re.sub(r"^&'\w+ ", '&', ty.strip())
+    if ty.startswith('&mut '):
+        return 'refmut'
+    if ty.startswith('&'):
+        return 'ref'
+    return 'value'
 
 
 def ret_kind(ret):
@@ -123,7 +134,7 @@ def dyn_sig(ty):
                 break
             j += 1
         ret = ret_kind(r[:j].strip())
-    return (n, 'erased_serde::de::Deserializer' in args, ret)
+    return (n, 'erased_serde::de::Deserializer' in args, ret, tuple(_pkind(a) for a in c01.split_args(args)) if args.strip() else ())
 
 
 def all_closures(crates):
